@@ -302,6 +302,9 @@ def gen(rng, tier):
     # a double printed from caller-managed text, deep-copied, the source's text rewritten and released afterwards
     yield {"lines": ["copyud 3ff8000000000000 " + b"1.50".hex(), "copyud 4059000000000000 " + b"100.000".hex(),
                      "copyud bfd0000000000000 " + b"-0.25".hex()]}
+    # a double whose printf format the node owns, deep-copied (round-8 seeds C09-13 / C05-14)
+    yield {"lines": ["copyfmt 400921f9f01b866e " + b"%.2f".hex() + " 0", "copyfmt 3ff8000000000000 " + b"%.6e".hex() + " 1",
+                     "copyfmt c059000000000000 " + b"%.1f".hex() + " 1"]}
     quick = tier == "quick"
     # --- the fixed universe: every ordered pair (reflexive pairs included: separately built twins)
     u = UNIVERSE
